@@ -156,3 +156,31 @@ PLANS["C08"] = Plan(
                 "offset guards of Unit.__mul__/__truediv__/__pow__ and the affine conversion law "
                 "proved from their bodies",
 )
+
+for _pid in ("C01", "C04", "C08"):
+    PLANS[_pid].bounded = ("bounded/c%s.py" % _pid[1:], [], [])
+
+
+# ------------------------------------------------------------------ array-function handlers
+from contracts import handlers as _H   # noqa: E402
+
+_HANDLERS = [("contracts.handlers", n) for n in _H.ALL
+             if getattr(_H, n).handler not in _H.UNDECIDED_BY_DESIGN]
+_MERGING = [("contracts.handlers", n) for n in _H.ALL
+            if _H.NA.F[getattr(_H, n).numpy]["merge"]]
+PLANS["C06"] = Plan(
+    level="proof", proofs=_HANDLERS, bounded=("bounded/c06.py", [], []), trusted_base=BASE_TRUST,
+    explanation="forwarding by congruence: every @implements handler is executed symbolically with "
+                "numpy's private implementations as uninterpreted functions; each returned value and "
+                "out= target must originate from the implementation of exactly the function named in "
+                "the handler's decorator applied to the caller's arguments stripped of units, bound "
+                "through NumPy's signature; functions without a handler run NumPy's own code: bounded only",
+)
+PLANS["C07"] = Plan(
+    level="proof", proofs=_HANDLERS + [("contracts.unit_ops", c) for c in ("UnitMul", "UnitTrueDiv", "UnitPow")],
+    bounded=("bounded/c07.py", [], []), trusted_base=BASE_TRUST,
+    explanation="unit bookkeeping of every handler against the homogeneity degrees of "
+                "spec/numpy_algebra.py: units(result) == prod(units(arg)**degree) in scale and dimension, "
+                "bare results carry no units; Unit arithmetic through its proved contracts",
+)
+PLANS["C01"].proofs += _MERGING
